@@ -96,15 +96,24 @@ type sess struct {
 }
 
 type Driver struct {
-	Other *env.Device // a second device enrolled with the same owner: faults "other-device" present its genuine proof
-	e     *env.Env
-	dev   *env.Device
-	cfg   Config
-	ss    []*sess
-	nDI   int
-	pss   bool
-	ctx   context.Context
-	rvTo  []protocol.RvTO2Addr
+	// KeepRejectedKeys: after a ProveDevice that was refused the driver keeps the tunnel keys it derived (as an attacker
+	// would) and encrypts later messages with them
+	KeepRejectedKeys bool
+	Other            *env.Device // a second device enrolled with the same owner: faults "other-device" present its genuine proof
+	// Mutate (optional) alters the plaintext body of a message after it was built and before tunnel encryption, so that an
+	// altered 66/68/70 body still decrypts and reaches the responder. Send (optional) replaces the transmission of the
+	// finished request (default: e.RT.Do); it sees the bytes as they go on the wire. Both leave the facts OK/Enc/Hmac as
+	// computed for the unaltered message: callers that alter a message must not rely on them.
+	Mutate func(msg int, plain []byte) []byte
+	Send   func(msg int, body []byte, hdr http.Header) *http.Response
+	e      *env.Env
+	dev    *env.Device
+	cfg    Config
+	ss     []*sess
+	nDI    int
+	pss    bool
+	ctx    context.Context
+	rvTo   []protocol.RvTO2Addr
 }
 
 // NewDriver: dev is a device onboarded by DI whose voucher (1 entry, owner = env owner key) is in e.DB.
@@ -115,6 +124,14 @@ func NewDriver(e *env.Env, dev *env.Device, cfg Config) *Driver {
 }
 
 func (d *Driver) Sessions() int { return len(d.ss) }
+
+// Token is the session token of context i ("" when there is none).
+func (d *Driver) Token(i int) string {
+	if c := d.sess(i); c != nil {
+		return c.token
+	}
+	return ""
+}
 
 func (d *Driver) sess(i int) *sess {
 	if i < 0 || i >= len(d.ss) {
@@ -127,13 +144,14 @@ func isStart(m int) bool   { return m == 10 || m == 20 || m == 30 || m == 60 }
 func tunnelled(m int) bool { return m >= 65 && m <= 254 }
 
 var faults = map[int][]string{
-	22: {"to0d-hash", "nonce", "to1d-signer-stranger", "to1d-signer-mfg", "to1d-sig-flip", "no-entries", "entry-sig-flip", "ttl-zero", "header-from-other-voucher", "to1d-sig-short"},
-	30: {"unknown-guid"},
-	32: {"nonce", "ueid-guid", "ueid-type", "signer", "sig-flip", "no-nonce-claim", "null-payload", "other-device", "nonce-type"},
-	60: {"unknown-guid", "kex-invalid", "cipher-unknown", "sigtype-mismatch"},
-	62: {"index-len", "index-neg", "index-big"},
-	64: {"nonce", "ueid", "signer", "sig-flip", "no-setup-nonce", "no-fdo-claim", "xb-garbage", "null-payload", "alg-unknown", "other-device", "alg-512", "sig-short"},
-	70: {"nonce"},
+	22:  {"to0d-hash", "nonce", "to1d-signer-stranger", "to1d-signer-mfg", "to1d-sig-flip", "no-entries", "entry-sig-flip", "ttl-zero", "header-from-other-voucher", "to1d-sig-short"},
+	30:  {"unknown-guid"},
+	32:  {"nonce", "ueid-guid", "ueid-type", "signer", "sig-flip", "no-nonce-claim", "null-payload", "other-device", "nonce-type"},
+	60:  {"unknown-guid", "kex-invalid", "cipher-unknown", "sigtype-mismatch"},
+	62:  {"index-len", "index-neg", "index-big"},
+	64:  {"nonce", "ueid", "signer", "sig-flip", "no-setup-nonce", "no-fdo-claim", "xb-garbage", "null-payload", "alg-unknown", "other-device", "alg-512", "sig-short"},
+	70:  {"nonce"},
+	255: {"prev-0", "prev-99", "prev-255"}, // error messages naming a previous message type outside every protocol
 }
 
 // Faults lists the faults the driver implements for a message type. "garbage", "empty", "truncated" replace or cut the
@@ -210,10 +228,16 @@ func (d *Driver) Do(s Step) (res Result) {
 	own := start || (tc != nil && tc == bc)
 
 	b := d.build(s.Msg, bc, s.Fault)
+	if d.Mutate != nil {
+		b.plain = d.Mutate(s.Msg, b.plain)
+	}
 	body, enc := d.wrap(s.Msg, bc, b, s.Fault)
 
 	// 62 has no session-dependent content; 12 carries an HMAC the manufacturer cannot check (it never sees the device secret)
-	res.OK = (s.Fault == "" || d.Undetectable(s.Msg, s.Fault)) && b.has && (own || (tc != nil && (s.Msg == 62 || s.Msg == 12)))
+	res.OK = (s.Fault == "" || d.Undetectable(s.Msg, s.Fault)) && b.has && (own || (tc != nil && s.Msg == 62))
+	if s.Msg == 12 && s.Fault == "" {
+		res.OK = true // any well-formed HMAC structure passes: nothing in it can be checked by the manufacturer
+	}
 	// the owner looks the voucher up by GUID at 60, 62, 64 and, when replacing it, at 70: once a completed TO2 has replaced
 	// it (the device now lives under the replacement GUID) those requests name a voucher that is gone
 	if s.Msg == 60 || s.Msg == 62 || s.Msg == 64 || (s.Msg == 70 && !d.cfg.Reuse) {
@@ -237,7 +261,12 @@ func (d *Driver) Do(s Step) (res Result) {
 	if a := d.auth(s); a != "" {
 		hdr.Set("Authorization", a)
 	}
-	resp := d.e.RT.Do(s.Msg, body, hdr)
+	var resp *http.Response
+	if d.Send != nil {
+		resp = d.Send(s.Msg, body, hdr)
+	} else {
+		resp = d.e.RT.Do(s.Msg, body, hdr)
+	}
 	rb, _ := io.ReadAll(resp.Body)
 	_ = resp.Body.Close()
 	res.Body = rb
